@@ -26,6 +26,11 @@ func c12(c *Ctx) {
 	c12R3(c)
 	c12R4(c)
 	c12R5(c)
+	var fns []*FuncInfo
+	for _, pk := range []string{eniPkg, daemonPkg, "types/daemon", "types", pluginPkg, "rpc"} {
+		fns = append(fns, c.P.FuncsInPkg(pk)...)
+	}
+	ruleMakeThenAppend(c, "C12.R6", fns, "configuration entries (routes, addresses, interfaces) handed from the daemon to the plugin")
 }
 
 func c12R1(c *Ctx) {
@@ -267,6 +272,19 @@ func c12R2(c *Ctx) {
 				}
 			}
 		}
+		roots := map[types.Object]bool{}
+		addRoot := func(x ast.Expr) {
+			if sel, ok := ast.Unparen(x).(*ast.SelectorExpr); ok {
+				if v, ok := identObj(info, sel.X).(*types.Var); ok && !v.IsField() {
+					if _, isStruct := v.Type().Underlying().(*types.Struct); isStruct {
+						roots[v] = true
+					}
+				}
+			}
+		}
+		if as, ok := stmt.(*ast.AssignStmt); ok {
+			addRoot(as.Lhs[0])
+		}
 		famOK := !strings.Contains(tgt, "IPv4") && !strings.Contains(tgt, "IPv6") || strings.Contains(tgt, fam)
 		// a statement of an enclosing block reports the same CIDR expression as the subnet
 		sib := false
@@ -284,6 +302,7 @@ func c12R2(c *Ctx) {
 						for k, r := range as.Rhs {
 							if exprString(r) == xs && strings.Contains(exprString(as.Lhs[k]), fam) {
 								sib = true
+								addRoot(as.Lhs[k])
 							}
 						}
 					}
@@ -298,7 +317,21 @@ func c12R2(c *Ctx) {
 		}
 		// family guard of the block (getTrunkENI: if EnableIPvN)
 		c.Check(famOK && sib, "C12.R2", key, p.Pos(cs.Call), fn.Key(), "gateway."+fam+" = DeriveGatewayIP(X) next to subnet."+fam+" = X (same expression X, same family)", fmt.Sprintf("target=%s familyOK=%v subnetSibling=%v", tgt, famOK, sib))
-		_ = info
+		// the local aggregates that receive the derived gateway / the parsed subnet have no other
+		// source: apart from the empty value they start from, they are filled field by field
+		for _, root := range sortedObjs(roots) {
+			for _, d := range varDefs(fn, root) {
+				if d.rhs == nil {
+					if _, isDecl := d.node.(*ast.ValueSpec); isDecl {
+						continue
+					}
+				} else if cl, ok := ast.Unparen(d.rhs).(*ast.CompositeLit); ok && len(cl.Elts) == 0 {
+					continue
+				}
+				c.Bad("C12.R2", fn.Key()+": "+root.Name()+" is filled only from the record's CIDR", p.Pos(d.node), fn.Key(),
+					"the aggregate starts empty and is filled per family from DeriveGatewayIP / ParseCIDR of the record's CIDR", "also assigned as a whole at "+p.Pos(d.node))
+			}
+		}
 	}
 	// RemoteIPResource.ToRPC: no configuration with an address but an empty subnet / gateway
 	fn := p.Func(eniPkg, "RemoteIPResource.ToRPC")
@@ -616,4 +649,13 @@ func c12R5(c *Ctx) {
 		return true
 	})
 	c.Check(got["egress"] && got["ingress"], "C12.R5", "both directions have an override", p.Pos(fn.Decl), fn.Key(), "egress and ingress", fmt.Sprintf("%v", got))
+}
+
+func sortedObjs(m map[types.Object]bool) []types.Object {
+	var out []types.Object
+	for o := range m {
+		out = append(out, o)
+	}
+	sort.Slice(out, func(i, j int) bool { return out[i].Pos() < out[j].Pos() })
+	return out
 }
